@@ -1,5 +1,138 @@
 import Driver.Proto
+import Driver.C16
+import TonicModel.Model.WebClient
+import TonicModel.Spec.GrpcWeb
 namespace DriverC17
-/-- stub: property not yet claimed -/
-def handle (_case _obs : List String) : String × String := ("unclaimed", "fail:unclaimed")
+open Proto WebServer WebClient
+open DriverC16 (parseEvs parseOuts renderOuts join isData firstFail dataThenEos)
+open TMap (Pair str)
+
+def bytesLe : Bytes → Bytes → Bool
+  | [], _ => true
+  | _ :: _, [] => false
+  | a :: as, b :: bs => if a.toNat < b.toNat then true else if b.toNat < a.toNat then false else bytesLe as bs
+
+/-- put `p` before the first entry whose name is not smaller (stable w.r.t. equal names when
+folding from the right) -/
+def insertByName (p : Pair) : List Pair → List Pair
+  | [] => [p]
+  | q :: r => if bytesLe p.1 q.1 then p :: q :: r else q :: insertByName p r
+
+def sortByName (l : List Pair) : List Pair := l.foldr insertByName []
+
+/-- canonical form of trailers frames: sorted by name, value order kept -/
+def canonOuts : List Out → List Out
+  | [] => []
+  | .trailers t :: r => .trailers (sortByName t) :: canonOuts r
+  | o :: r => o :: canonOuts r
+
+def trailersOf : List Out → List Pair
+  | [] => []
+  | .trailers t :: r => t ++ trailersOf r
+  | _ :: r => trailersOf r
+
+def countTrailers : List Out → Nat
+  | [] => 0
+  | .trailers _ :: r => countTrailers r + 1
+  | _ :: r => countTrailers r
+
+/-- spec verdict for the client: `evs` = inner response body, `obs` = frames the caller saw,
+`busy` = the run did not end, `ae` = polls of the inner body after its end. -/
+def clientVerdict (evs : List BodyEv) (obs : List Out) (busy : Bool) (ae : Nat) : String :=
+  let es := evs.filter notPending
+  let live := verdict [("no-busy-loop", !busy && ae ≤ 8)]
+  let body := flat es
+  let v :=
+    match es.find? (fun e => !isData e) with
+    | some .err => verdict [("error-not-clean", obs.getLast? == some .err)]
+    | some _ => "ok"      -- real HTTP trailers next to in-body ones: outside the property
+    | none =>
+      match Spec.GrpcWeb.frameStructure body with
+      | none => verdict [("cut-off-or-malformed-is-error", obs.getLast? == some .err)]
+      | some items =>
+        let msgs := items.filter (fun i => i.1 != 128)
+        let trs := items.filter (fun i => i.1 == 128)
+        let trailersLast := (items.dropWhile (fun i => i.1 != 128)).length ≤ 1
+        if trs.length ≤ 1 && trailersLast then
+          let msgBytes := msgs.flatMap (fun i => Spec.GrpcWeb.rawFrame i.1 i.2)
+          match trs with
+          | [] =>
+            verdict [("clean-end", obs.getLast? == some .eos),
+                     ("message-bytes-identical", dataOf obs == msgBytes),
+                     ("no-trailers-invented", trailersOf obs == [])]
+          | (_, block) :: _ =>
+            match Spec.GrpcWeb.parseBlock block with
+            | some ps =>
+              if ps.all (fun p => Spec.GrpcWeb.fieldNameOk p.1 && Spec.GrpcWeb.fieldValueOk p.2) then
+                verdict [("clean-end", obs.getLast? == some .eos),
+                         ("message-bytes-identical", dataOf obs == msgBytes),
+                         ("trailers-after-data", match obs.dropLast.getLast? with
+                            | some (.trailers _) => true
+                            | _ => false),
+                         ("one-trailers-frame", countTrailers obs == 1),
+                         ("every-trailer-complete",
+                            Spec.GrpcWeb.sameTrailers (Spec.GrpcWeb.normPairs (trailersOf obs)) (Spec.GrpcWeb.normPairs ps)
+                            && (trailersOf obs).length == ps.length)]
+              else "ok"    -- trailer block with bytes no HTTP field may carry: error or lenient
+            | none => "ok" -- unterminated line / line without colon: error or lenient
+        else "ok"          -- frames after the trailers frame / several trailers frames
+  firstFail [live, v]
+
+def handle (case obs : List String) : String × String :=
+  match case with
+  | "cl" :: evToks =>
+    match parseEvs evToks with
+    | some evs =>
+      let model := join (renderOuts (canonOuts (Fixed.observe evs)) ++ ["ae", "0"])
+      let v := match splitAe obs with
+        | some (frames, ae) =>
+          let busy := frames.getLast? == some "busy" || frames.getLast? == some "hang" || frames.getLast? == some "panic"
+          match parseOuts (if busy then frames.dropLast else frames) with
+          | some o => clientVerdict evs o busy ae
+          | none => "fail:unreadable-observation"
+        | none => "fail:unreadable-observation"
+      (model, v)
+    | none => bad
+  | "asis" :: evToks =>
+    match parseEvs evToks with
+    | some evs =>
+      let (os, busy, ae) := AsIs.observe 1000 evs
+      let model := join (renderOuts (canonOuts os) ++ (if busy then ["busy"] else []) ++ ["ae", toString ae])
+      let v := match splitAe obs with
+        | some (frames, ae) =>
+          let busy := frames.getLast? == some "busy" || frames.getLast? == some "hang" || frames.getLast? == some "panic"
+          match parseOuts (if busy then frames.dropLast else frames) with
+          | some o => clientVerdict evs o busy ae
+          | none => "fail:unreadable-observation"
+        | none => "fail:unreadable-observation"
+      (model, v)
+    | none => bad
+  | "creq" :: evToks =>
+    match parseEvs evToks with
+    | some evs =>
+      -- `client_request`: Encode direction, no base64; HTTP/2 is coerced to HTTP/1.1 and the
+      -- content type replaced
+      let model := join (["HTTP11", hex GRPC_WEB] ++ renderOuts (respRun .none evs))
+      let v := match obs with
+        | ver :: ct :: frames =>
+          match parseOuts frames with
+          | some o =>
+            let es := evs.filter notPending
+            firstFail [verdict [("http-1.1", ver == "HTTP11"),
+                                ("grpc-web-content-type", ct == hex (str "application/grpc-web"))],
+                       (match es.find? (fun e => !isData e) with
+                        | none => verdict [("request-bytes-identical", dataThenEos o && dataOf o == flat es)]
+                        | some .err => verdict [("error-not-clean", o.getLast? == some .err)]
+                        | some _ => "ok")]
+          | none => "fail:unreadable-observation"
+        | _ => "fail:unreadable-observation"
+      (model, v)
+    | none => bad
+  | _ => bad
+where
+  splitAe (obs : List String) : Option (List String × Nat) :=
+    match obs.reverse with
+    | n :: "ae" :: r => (nat? n).map (fun k => (r.reverse, k))
+    | _ => none
+
 end DriverC17
